@@ -1,6 +1,7 @@
 package rules
 
 import (
+	"go/token"
 	"fmt"
 	"golang.org/x/tools/go/ssa"
 	"verifcheck/internal/prog"
@@ -149,6 +150,54 @@ func (c *Ctx) PART(rule string) []report.Obligation {
 		}
 	} else {
 		out = append(out, anchorViolation(rule+"-2", "types.(*Project).WithServicesDisabled"))
+	}
+	// ---- PART-4: WithServicesEnabled re-partitions whenever names are given
+	if f := c.P.Func("types.(*Project).WithServicesEnabled"); f != nil {
+		wp := c.callsTo(f, "types.(*Project).WithProfiles")
+		good := len(wp) >= 1
+		var offending ssa.Instruction
+		if good {
+			for _, r := range returnsOf(f) {
+				dominated := false
+				for _, w := range wp {
+					if prog.InstrDominates(w, r) {
+						dominated = true
+					}
+				}
+				if dominated {
+					continue
+				}
+				// the only return that may skip the re-partition is the one taken when no name was given
+				noNames := factHolds(r.Block(), func(cond ssa.Value, val bool) bool {
+					bo, ok := cond.(*ssa.BinOp)
+					if !ok {
+						return false
+					}
+					call, ok := bo.X.(*ssa.Call)
+					if !ok {
+						return false
+					}
+					bi, isB := call.Call.Value.(*ssa.Builtin)
+					if !isB || bi.Name() != "len" || len(f.Params) < 2 || call.Call.Args[0] != ssa.Value(f.Params[1]) {
+						return false
+					}
+					k, isC := constInt(bo.Y)
+					return isC && k == 0 && (bo.Op == token.EQL && val || bo.Op == token.NEQ && !val || bo.Op == token.GTR && !val)
+				})
+				if !noNames {
+					good = false
+					offending = r
+				}
+			}
+		}
+		pos := c.P.Pos(f.Pos())
+		if offending != nil {
+			pos = c.P.InstrPos(offending)
+		}
+		out = append(out, verdict(good, rule+"-4", "WithServicesEnabled :: services re-partitioned whenever a name is given", pos,
+			"every return other than the no-name one is dominated by the WithProfiles call that re-partitions enabled and disabled services", "a return skips the re-partition although names were given: a service that was disabled explicitly (and has no profile) stays disabled without an error"))
+	} else {
+		out = append(out, anchorViolation(rule+"-4", "types.(*Project).WithServicesEnabled"))
 	}
 	// ---- PART-3: WithSelectedServices
 	if f := c.P.Func("types.(*Project).WithSelectedServices"); f != nil {
